@@ -17,6 +17,8 @@ import (
 
 	xpv1 "github.com/crossplane/crossplane-runtime/apis/common/v1"
 
+	fnv1 "github.com/crossplane/crossplane/apis/apiextensions/fn/proto/v1"
+
 	v1 "github.com/crossplane/crossplane/apis/apiextensions/v1"
 	zz "github.com/crossplane/crossplane/internal/zzverif"
 	"github.com/crossplane/crossplane/internal/zzverif/kube"
@@ -165,3 +167,79 @@ func HarnessC09Observed() {
 		zz.Assert("no-connection-detail-of-another-owners-resource-observed", string(r.GetConnectionDetails()["password"]) != "theirs")
 	}
 }
+
+// zzPassThrough is a function that behaves as the function specification
+// asks: it returns the desired composite it was sent (here: its connection
+// details) along with what it adds itself.
+type zzPassThrough struct {
+	inner *zzRunner
+	adds  bool
+}
+
+func (p *zzPassThrough) RunFunction(ctx context.Context, name string, req *fnv1.RunFunctionRequest) (*fnv1.RunFunctionResponse, error) {
+	rsp, err := p.inner.RunFunction(ctx, name, req)
+	if err != nil || rsp == nil {
+		return rsp, err
+	}
+	cds := map[string][]byte{}
+	for k, v := range req.GetDesired().GetComposite().GetConnectionDetails() {
+		cds[k] = v
+	}
+	if p.adds {
+		cds["produced"] = []byte("now")
+	}
+	if rsp.GetDesired().GetComposite() == nil {
+		rsp.Desired.Composite = &fnv1.Resource{}
+	}
+	rsp.Desired.Composite.ConnectionDetails = cds
+	return rsp, nil
+}
+
+// HarnessC09PassThrough: the XR's connection details a function pipeline
+// returns are the ones its functions produced in this reconcile. The XR's
+// secret from an earlier reconcile (its own, or an uncontrolled
+// connection-type one it may adopt) holds a key that no function produces
+// any more; the functions pass the desired state they are sent through, as
+// the specification asks. The stored key is not among the connection details
+// Compose returns, and the first function is sent no desired connection
+// details.
+//
+//gosym:harness
+//gosym:cover stored-secret produced nothing-produced
+func HarnessC09PassThrough() {
+	s := kube.New()
+	s.Register(&corev1.Secret{}, &corev1.SecretList{}, "", "Secret")
+	xr := zzNewXRObject()
+	xr.SetWriteConnectionSecretToReference(&xpv1.SecretReference{Name: "xr-conn", Namespace: "ns"})
+	s.Put(xr)
+	if zz.Bool("secret.stored") {
+		zz.Cover("stored-secret")
+		sec := &corev1.Secret{ObjectMeta: metav1.ObjectMeta{Name: "xr-conn", Namespace: "ns"}, Data: map[string][]byte{"stale": []byte("left-over")}}
+		if zz.Bool("secret.controlled-by-xr") {
+			sec.OwnerReferences = []metav1.OwnerReference{{APIVersion: zzXRGVK.GroupVersion().String(), Kind: zzXRGVK.Kind, Name: zzXRName, UID: zzXRUIDc, Controller: ptrTrue()}}
+		}
+		s.Put(sec)
+	}
+	adds := zz.Bool("function.produces-a-key")
+	inner := &zzRunner{steps: []zzStep{{desired: []bool{true, false}}}}
+	c := NewFunctionComposer(s, s, &zzPassThrough{inner: inner, adds: adds})
+	res, err := c.Compose(context.Background(), zzReadXR(s), CompositionRequest{Revision: zzRevision(1)})
+	if len(inner.calls) > 0 {
+		zz.Assert("pipeline-starts-without-desired-connection-details", len(inner.calls[0].desired.GetComposite().GetConnectionDetails()) == 0)
+	}
+	if err != nil {
+		return
+	}
+	_, stale := res.ConnectionDetails["stale"]
+	zz.Assert("stored-key-no-function-produced-is-not-returned", !stale)
+	_, produced := res.ConnectionDetails["produced"]
+	if adds {
+		zz.Cover("produced")
+		zz.Assert("produced-key-is-returned", produced)
+	} else {
+		zz.Cover("nothing-produced")
+		zz.Assert("only-produced-keys-are-returned", len(res.ConnectionDetails) == 0)
+	}
+}
+
+func ptrTrue() *bool { t := true; return &t }
